@@ -21,7 +21,17 @@ func (m *Map[K, V]) ToJSON() ([]byte, error) {
 
 // FromJSON populates the map from the input JSON representation.
 func (m *Map[K, V]) FromJSON(data []byte) error {
-	return json.Unmarshal(data, &m.m)
+	// decode into a fresh map: decoding into the live one merges with the
+	// prior content, keeps partial results on error and turns it nil on null
+	elements := make(map[K]V)
+	err := json.Unmarshal(data, &elements)
+	if err == nil {
+		if elements == nil {
+			elements = make(map[K]V)
+		}
+		m.m = elements
+	}
+	return err
 }
 
 // UnmarshalJSON @implements json.Unmarshaler
